@@ -27,7 +27,7 @@ PURE_EXTERNAL = {
     "jsonschema.Draft4Validator", "Resource.from_contents", "Registry", "super", "Tree", "Token", "Token.new_borrow_pos",
     "ValueError", "KeyError", "IOError", "TypeError", "SyntaxError", "UnboundLocalError",
     # path strings / text handed to the OS or to lark: immutable str arguments
-    "open", "codecs.open", "self.lalr.parse_interactive",
+    "open", "codecs.open", "self.lalr.parse_interactive", "self.lalr.parse",
     # lark transformers work on the parse tree built inside the same public call
     "Transformer.transform", "Transformer_InPlace.transform", "Canonize().transform",
     # C17 decides what reaches OrderedDict
@@ -371,7 +371,7 @@ class Effects:
                 elif cs is not None and not cs.target:
                     name = cs.external or cs.text
                     short = name.split(".")[-1] if name else ""
-                    if isinstance(f, ast.Attribute) and (f.attr in MUTATORS or f.attr in PART_OF or f.attr in ("lower", "upper", "strip", "startswith", "endswith", "replace", "join", "format", "split", "read", "write", "items", "keys", "values", "get", "union", "message", "iter_errors", "encode", "index", "count")):
+                    if isinstance(f, ast.Attribute) and (f.attr in MUTATORS or f.attr in PART_OF or f.attr in ("lower", "upper", "strip", "startswith", "endswith", "replace", "join", "format", "split", "read", "write", "items", "keys", "values", "get", "union", "message", "iter_errors", "encode", "index", "count", "search", "match", "fullmatch", "findall", "finditer", "sub", "subn", "partition", "rpartition", "splitlines", "rsplit", "lstrip", "rstrip", "isdigit", "isalpha", "decode")):
                         pass
                     elif name in PURE_EXTERNAL or short in SHALLOW or name in SHALLOW or (name and name.startswith(("log.", "logging.", "logger."))):
                         pass
